@@ -197,6 +197,32 @@ def check_ext(spec):
             fails.append(("document-changed:republished", f"{spec}: a re-published extension does not re-serialize to the same document"))
     except Exception as ex:  # noqa: BLE001
         fails.append((f"roundtrip-raised:republished:{type(ex).__name__}", f"{spec}: {str(ex)[:200]}"))
+    # histories of one extension object: (a) every operation name first taken by a placeholder definition and then
+    # redefined, (b) the caller goes on using the requirement list it built a signature from
+    tds, ods, vs, version, reqs = spec
+    if ods:
+        e5 = ext.Extension("c10.ext", ext.Version.parse(version), set(reqs))
+        e6 = ext.Extension("c10.ext", ext.Version.parse(version), set(reqs))
+        scratch = []
+        for i in ods:
+            nm, poly, binary, desc, misc = OP_DEFS[i]
+            e5.add_op_def(ext.OpDef(nm, ext.OpDefSig(None, True), "placeholder"))
+            e5.add_op_def(ext.OpDef(nm, ext.OpDefSig(T.build_type(poly) if poly is not None else None, binary), desc, json.loads(json.dumps(misc))))
+            pf = T.build_type(poly) if poly is not None else None
+            if pf is not None:
+                scratch.append(pf.body.runtime_reqs)
+            e6.add_op_def(ext.OpDef(nm, ext.OpDefSig(pf, binary), desc, json.loads(json.dumps(misc))))
+        for lst in scratch:  # the caller's own lists, cleared and refilled for the next use
+            lst.clear()
+            lst.append("somebody.else")
+        for tag, ex_ in (("redefined", e5), ("caller-list-reused", e6)):
+            fails += owner_fails(ex_, tag)
+            try:
+                again = ext.Extension.from_json(ex_.to_json())
+                if norm_doc(json.loads(again.to_json())) != norm_doc(json.loads(ex_.to_json())):
+                    fails.append((f"document-changed:{tag}", f"{spec}: an extension whose operations were {tag} does not re-serialize to the same document"))
+            except Exception as ex:  # noqa: BLE001
+                fails.append((f"roundtrip-raised:{tag}:{type(ex).__name__}", f"{spec}: {str(ex)[:200]}"))
     return fails
 
 
